@@ -2,6 +2,7 @@ package scen
 
 import (
 	"fmt"
+	"strings"
 	"net"
 	"sync/atomic"
 
@@ -476,6 +477,137 @@ func runConcVHost(c *simkit.Choice, r *simkit.Rec) {
 			r.Violate("result-differs", site, fmt.Sprintf("client %d asking for %q among %d simultaneous first handshakes: served %q (client err %q, server err %q); a lone handshake on a fresh Config: %q (%q, %q)", i, ask[i], nconn, got[i].serial, got[i].cerr, got[i].serr, want[i].serial, want[i].cerr, want[i].serr))
 			return
 		}
+	}
+	r.Outcome = "ok"
+}
+
+// conc-dial: one client Config without ServerName is handed to several
+// simultaneous gmtls.Dial calls for different hosts (the rewriter routes the
+// dialer to the simulated network). Each call must end as the same call does
+// alone: connected to its host, verified under that host's name; and the
+// caller's Config must be left as it was.
+func init() {
+	register(Family{Name: "conc-dial", Prop: "C20", ID: 2010, Weight: 1, PlainBuild: true, RaceBuild: true, FaultNames: concFaults, ReachNames: concReach, Run: runConcDial})
+}
+
+func runConcDial(c *simkit.Choice, r *simkit.Rec) {
+	pki.Load()
+	gm := c.Bool(1, 2, simkit.LScen)
+	ndial := c.Range(2, 4, simkit.LScen)
+	hosts := []string{"server.sim", "server2.sim"}
+	ask := make([]string, ndial)
+	for i := range ask {
+		ask[i] = hosts[c.Choose(2, simkit.LOp)]
+	}
+	ask[0], ask[1] = hosts[0], hosts[1] // at least two different hosts
+	if c.Bool(1, 2, simkit.LOp) {
+		ask[0], ask[1] = ask[1], ask[0]
+	}
+	pol := drawConcPolicy(c, r, 3000*ndial)
+	ent := uint64(c.Choose(1<<31, simkit.LEntropy))
+	r.Config = fmt.Sprintf("dial/gm%v", gm)
+	r.Sig(uint64(ndial) | uint64(boolByte(gm))<<4 | 10<<24)
+	s := simkit.NewSim(c, pol, 8000000)
+	// the servers behind the simulated dialer: one identity per host name
+	// (the hook runs inside whichever task dials: its own state is atomic)
+	var nsrv atomic.Int64
+	serve := func(host string, raw *simkit.Conn) {
+		k := nsrv.Add(1)
+		cfg := &gmtls.Config{Rand: simkit.NewStream(ent + 500 + uint64(k)), Time: simTime(s, 0), SessionTicketsDisabled: true}
+		second := host == "server2.sim"
+		if gm {
+			cfg.GMSupport = gmtls.NewGMSupport()
+			cfg.Certificates = gmServerCerts("srv-sign", "srv-enc")
+			if second {
+				cfg.Certificates = gmServerCerts("srv2-sign", "srv2-enc")
+			}
+		} else {
+			cfg.Certificates = []gmtls.Certificate{pki.GMStd("tlsrsa")}
+			if second {
+				cfg.Certificates = []gmtls.Certificate{pki.GMStd("tlsrsa2")}
+			}
+		}
+		s.Spawn(fmt.Sprintf("srv%d", k), 1, func() {
+			conn := gmtls.Server(raw, cfg)
+			if conn.Handshake() == nil {
+				buf := make([]byte, 16)
+				conn.Read(buf)
+			}
+			conn.Close()
+		})
+	}
+	simkit.DialHook = func(network, addr string) (net.Conn, error) {
+		host := addr
+		if i := strings.LastIndex(addr, ":"); i >= 0 {
+			host = addr[:i]
+		}
+		a, b := s.NewConnPair("dial-"+host, "srv-"+host, simkit.NetCfg{}, simkit.NetCfg{})
+		serve(host, b)
+		return a, nil
+	}
+	defer func() { simkit.DialHook = nil }()
+	mkCfg := func(seed uint64) *gmtls.Config {
+		cc := &gmtls.Config{Rand: simkit.NewStream(seed), Time: simTime(s, 0)}
+		if gm {
+			cc.GMSupport = gmtls.NewGMSupport()
+			cc.RootCAs = pki.Pool("caA")
+		} else {
+			cc.RootCAs = pki.Pool("rsaCA")
+		}
+		return cc
+	}
+	type res struct {
+		err  string
+		peer string
+	}
+	dial := func(cfg *gmtls.Config, host string, o *res) {
+		conn, err := gmtls.Dial("tcp", host+":443", cfg)
+		o.err = errStr(err)
+		if err == nil {
+			if pcs := conn.ConnectionState().PeerCertificates; len(pcs) > 0 {
+				o.peer = fmt.Sprintf("%s#%x", pcs[0].Subject.CommonName, pcs[0].SerialNumber)
+			}
+			conn.Close()
+		}
+	}
+	want := make([]res, ndial)
+	got := make([]res, ndial)
+	shared := mkCfg(ent + 7)
+	nameAfter := ""
+	s.Spawn("driver", 0, func() {
+		for i := 0; i < ndial; i++ {
+			dial(mkCfg(ent+100+uint64(i)), ask[i], &want[i]) // alone, on a Config of its own
+		}
+		var ts []*simkit.Task
+		for i := 0; i < ndial; i++ {
+			i := i
+			ts = append(ts, s.Spawn(fmt.Sprintf("dial%d", i), 0, func() { dial(shared, ask[i], &got[i]) }))
+		}
+		for _, t := range ts {
+			s.Join(t)
+		}
+		nameAfter = shared.ServerName
+	})
+	s.Run()
+	r.Detail = map[string]interface{}{"program": "conc-dial", "gm": gm, "dials": ndial, "hosts": ask, "policy": fmt.Sprintf("%+v", pol)}
+	r.Reach(idx(concReach, "config-shared-by-dials"))
+	site := "gmtls.Dial/shared-config"
+	if !concFinish(s, r, site) {
+		return
+	}
+	for i := range want {
+		if want[i].err != "" {
+			r.Violate("result-differs", site, fmt.Sprintf("a lone Dial to %s failed: %s", ask[i], want[i].err))
+			return
+		}
+		if want[i] != got[i] {
+			r.Violate("result-differs", site, fmt.Sprintf("Dial %d to %s among %d simultaneous dials sharing one Config: err %q, peer %q; alone: err %q, peer %q", i, ask[i], ndial, got[i].err, got[i].peer, want[i].err, want[i].peer))
+			return
+		}
+	}
+	if nameAfter != "" {
+		r.Violate("result-differs", site, fmt.Sprintf("the caller's Config was left with ServerName %q", nameAfter))
+		return
 	}
 	r.Outcome = "ok"
 }
